@@ -88,8 +88,7 @@ def stats(c, r):
     return {'kind_' + kind: 1, 'blocked_waits': raw.count(' cv.enq '), 'timeouts': raw.count(' ag.timeout '),
             'notifies': raw.count(' cv.pop '), 'spins': raw.count(' ag.yield '),
             'deadlock_errors': len(re.findall(r' ret 1 2 ', raw)), 'lock_errors': len(re.findall(r' ret 1 3 ', raw)),
-            'timed_signalled': len(re.findall(r' mtx\.reason 1 0 ', raw)),
-            'timed_signalled_but_taken': len(re.findall(r' mtx\.reason 1 0 1', raw)),
+            'timed_signalled': len(re.findall(r' cv\.woke \d+ 0 1', raw)),
             'recursive_reentries': raw.count(' rmtx.rec '), 'cs_entered': raw.count(' cs.enter '),
             'deadlock_end': 1 if 'end deadlock' in raw else 0}
 
